@@ -341,6 +341,7 @@ def malformed_batch(job):
 def pipeline_extra(res):
     """runs in the compile worker: describe every captured stream for the Lean side"""
     import c06_ops
+    import hl2npu
     from ethosu.vela import register_command_stream_generator as g
     from ethosu.vela.architecture_features import Accelerator
 
@@ -352,7 +353,10 @@ def pipeline_extra(res):
         with c06_ops.recording() as rec:
             words2 = g.generate_command_stream(art.npu_ops, art.arch, False, art.mem_limits)
         out.append({"line": c06_ops.request(ai, art.npu_ops, rec.ops, art.words, tag="c06p"),
-                    "rerun_same": list(words2) == list(art.words), "nops": len(art.npu_ops)})
+                    "rerun_same": list(words2) == list(art.words), "nops": len(art.npu_ops),
+                    # scheduled operation -> NpuOperation (harness/hl2npu.py): descriptor captured before the conversion
+                    "hl": hl2npu.lines(art, rec.ops), "hl_limits": hl2npu.limits(art)})
+    hl2npu.clear()
     return out
 
 
@@ -456,7 +460,7 @@ def replay_mode(ck):
 
 def main():
     ck = Check("C06", "proof")
-    ck.lean_stage(["VelaVerif.Props.C06", "VelaVerif.Props.C06Src"])
+    ck.lean_stage(["VelaVerif.Props.C06", "VelaVerif.Props.C06Src", "VelaVerif.Props.C06Build"])
     if ck.replay_arg:
         replay_mode(ck)
         sys.exit(0)
@@ -513,8 +517,15 @@ def main():
                                        "generator and prints the Lean verdict"})
     # ---- (b) streams of compiled networks --------------------------------------------------------
     import pipe_common
+    import pipeline
+    import hl2npu
 
+    pipeline.load_vela()
+    hl2npu.install()        # before the workers fork: they inherit the wrapped convert_command_to_npu_op
     outs = pipe_common.run_corpus(ck, n_nets, want={"extra": pipeline_extra}, corpus_first=False)
+    # families that aim at the branches of high_level_command_to_npu_op.py (operand swap, stand-alone scale tensors, TRANSPOSE,
+    # tile padding, clamp behind a forced zero point / overridden scale); their streams are judged by (b) and (c) as well
+    outs += pipe_common.run_corpus(ck, 660 if ck.thorough else 55, profiles=["hl2npu:"], want={"extra": pipeline_extra}, corpus_first=False)
     plines, pown = [], []
     for o in outs:
         ck.count("net_status_" + str(o.get("status", "harness-exception")))
@@ -540,6 +551,9 @@ def main():
                           "stream": si, "verdict": d["raw"][:1500], "request": e["line"][:20000]})
         if not d["model_eq"]:
             model_diff.append(({"idx": o["idx"], "ai": -1, "line": e["line"], "meta": {"n": e["nops"]}, "pipeline": True}, d))
+    # ---- (e) scheduled operation -> NpuOperation (Model/NpuOpBuild.lean, Spec/NpuOpBuild.lean) -----------------
+    hl_tot = hl2npu.judge(ck, outs)
+    hl_tot.update(hl2npu.float_stage(ck, 40000 if ck.thorough else 3000))
     # ---- (d) malformed stream ---------------------------------------------------------------------
     mal = shard(malformed_batch, n_mal)
     mouts = ck.model([m["line"] for m in mal]) if mal else []
@@ -609,14 +623,14 @@ def main():
     for m, ans in list(zip(mal, mouts))[:2]:
         ck.sample({"defect": m["defect"], "generator": m["real"], "model": ans})
     ck.finish({
-        "evaluations": len(lines) + len(plines) + len(mal),
+        "evaluations": len(lines) + len(plines) + len(mal) + hl_tot["hl2npu_operations"] + hl_tot["hl2npu_float_ops"],
         "distinct_nontrivial": nontrivial,
         "rule": "case = one operation list (random legal list, or the NpuOperation list of one compiled network's stream) through the real "
                 "generator and the Lean decoder/comparator; non-trivial when >= 1 register write was elided; lists are distinct by "
                 "(seed, index) / (profile, index, stream)",
         "legal_lists": len(lines), "pipeline_streams": len(plines), "pipeline_operations": p_ops, "malformed_lists": len(mal),
         "model_word_disagreements": len(model_diff), "malformed_disagreements": len(mal_diff), "spec_rejections": len(spec_bad),
-        "exhaustive": False,
+        "exhaustive": False, **hl_tot,
         "partial": "OFM/OPA/OPB scale values, op_to_scale, SHRAM layout, BLOCKDEP and wait watermarks are taken from the run "
                    "(scaling.*, try_block_config, calc_blockdep, get_wait_dependency: C09, C15, C04) and compared as integers",
     }, assumptions=["implicit IFM extent = (OFM-1)*stride + dilated kernel - pads, halved (rounded up) when upscaling",
